@@ -125,6 +125,20 @@ let register (reg : string -> (Sx.t list -> Sx.t) -> unit) : unit =
       | [cfg; host; cookies; already] ->
         wr_headers (CookieStore.store_clear (rd_ccfg cfg) (rd_str host) (rd_cookies cookies) (rd_list rd_str already))
       | _ -> raise (Bad "cs_clear arity"));
+  (* a whole browser history through the jar model: the (name, value) pairs the jar holds at the end, sorted *)
+  reg "jar_run" (function
+      | [macs; cfg; host; ops] ->
+        let ops = rd_list (function
+            | L [Y "save"; v; t] -> JarSession.OpSave (rd_str v, rd_z t)
+            | L [Y "clear"] -> JarSession.OpClear
+            | v -> raise (Bad ("bad jar op " ^ to_string v))) ops in
+        (match JarSession.jar_run (table_fun (rd_table macs)) (rd_ccfg cfg) (rd_str host) [] ops with
+         | None -> Y "none"
+         | Some j ->
+           let cs = List.map (fun (n, v) -> (string_of_str n, string_of_str v)) (Jar.jar_cookies j) in
+           let cs = List.sort compare cs in
+           L [Y "some"; L (List.map (fun (n, v) -> L [S n; S v]) cs)])
+      | _ -> raise (Bad "jar_run arity"));
   reg "make_cookie_string" (function
       | [cfg; host; name; value; exp] ->
         wr_str (Cookies.cookie_string (Cookies.make_cookie (rd_ccfg cfg) (rd_str host) (rd_str name) (rd_str value) (rd_z exp)))
